@@ -299,6 +299,7 @@ func hdrEncoder(fset *token.FileSet, fd *ast.FuncDecl) (string, error) {
 	var branches []string
 	elsePanic := false
 	svar := ""
+	last := ast.Stmt(root) // the last top-level statement that belongs to the chain
 	for is := root; ; {
 		if is.Init != nil {
 			return "", hdrFail(fset, is, "if statement with an init clause in the size-header chain")
@@ -313,6 +314,21 @@ func hdrEncoder(fset *token.FileSet, fd *ast.FuncDecl) (string, error) {
 		}
 		branches = append(branches, "("+cmp+", "+body+")")
 		if is.Else == nil {
+			// `if n <= c { return ... }` without else: the chain goes on in the next statement
+			if strings.HasPrefix(body, "EBRet") {
+				var next ast.Stmt
+				for i, st := range fd.Body.List {
+					if st == last && i+1 < len(fd.Body.List) {
+						next = fd.Body.List[i+1]
+					}
+				}
+				if nis, ok := next.(*ast.IfStmt); ok {
+					if v, _, ok := hdrNCmp(nis.Cond); ok && v == nvar {
+						is, last = nis, next
+						continue
+					}
+				}
+			}
 			break
 		}
 		if next, ok := is.Else.(*ast.IfStmt); ok {
@@ -335,7 +351,7 @@ func hdrEncoder(fset *token.FileSet, fd *ast.FuncDecl) (string, error) {
 	// the header bytes must not be overwritten after the chain: no later `s[k] = ...` at top level
 	after := false
 	for _, st := range fd.Body.List {
-		if st == ast.Stmt(root) {
+		if st == last {
 			after = true
 			continue
 		}
